@@ -8,6 +8,7 @@ mod g_frame;
 mod node;
 mod schemes;
 mod g_sess;
+mod g_pipe;
 
 use std::io::Write;
 use util::*;
@@ -26,6 +27,7 @@ fn group_by_name(name: &str) -> Option<Box<dyn Group>> {
     match name {
         "frame" => Some(Box::new(g_frame::FrameGroup)),
         "sess" => Some(Box::new(g_sess::SessGroup)),
+        "pipe" => Some(Box::new(g_pipe::PipeGroup)),
         _ => None,
     }
 }
